@@ -116,10 +116,18 @@ impl ProgProp {
             Deser::SerdeXmlRs => Options::serde_xml_rs(),
         }
     }
+    /// one case in four is rendered with sort-by-name on top of the preset (the CLI offers --sort next to --parser)
+    fn options_for(&self, tapes: &Tapes) -> Options {
+        let mut o = self.options();
+        if tapes.c.get(1).map(|b| b & 3 == 0).unwrap_or(false) {
+            o.sort = crate::sut::SortBy::XmlName;
+        }
+        o
+    }
     fn build(&self, tapes: &Tapes) -> Result<(Prepared, ProgCase), Failure> {
         let p = prepare(tapes, &self.domain(tapes), &surface(self.deser));
         let root = parse_docs(&p.bytes)?;
-        let rendering = root.to_serde_struct(&self.options());
+        let rendering = root.to_serde_struct(&self.options_for(tapes));
         let first = rendering.lines().find_map(|l| l.strip_prefix("pub struct ").and_then(|r| r.strip_suffix(" {"))).unwrap_or("Missing").to_string();
         let docs = p.bytes.iter().map(|b| String::from_utf8_lossy(b).to_string()).collect();
         let case = ProgCase { source: format!("{}{}", HEADER, rendering), root: first, docs, with_strict: self.deser == Deser::QuickXml };
@@ -275,17 +283,23 @@ impl ProgProp {
     /// the necessary conditions of the static stage on one enumerated document sequence
     fn static_oracle(&self, docs: &[&crate::model::Node], bytes: &[Vec<u8>]) -> Result<bool, String> {
         let root = crate::sut::parse_seq(bytes).map_err(|(i, e)| format!("document #{} rejected: {}", i + 1, e))?;
-        let o = self.options();
-        let src = root.to_serde_struct(&o);
-        let defs = crate::rendered::read_syn(&src).map_err(|e| format!("the generated source cannot compile: {}", e))?;
-        super::c04::well_formed(&defs).map_err(|e| format!("the generated source cannot compile: {}", e))?;
-        if let Some(d) = defs.iter().find(|d| d.name == "Serialize" || d.name == "Deserialize") {
-            return Err(format!("the generated source cannot compile: struct `{}` clashes with the serde import of the header", d.name));
-        }
-        let tree = crate::rendered::build_tree(&defs, &o.attribute_prefix, &o.text_identifier).map_err(|e| format!("the generated structs do not form a tree: {}", e))?;
-        for (i, d) in docs.iter().enumerate() {
-            let r = if self.deser == Deser::QuickXml { super::c01::admits(d, &tree, "") } else { admits_flat(d, &tree, "") };
-            r.map_err(|e| format!("from_str cannot succeed for source document #{}: {}", i + 1, e))?;
+        for by_name in [false, true] {
+            let mut o = self.options();
+            if by_name {
+                o.sort = crate::sut::SortBy::XmlName;
+            }
+            let tag = if by_name { " (sorted by name)" } else { "" };
+            let src = root.to_serde_struct(&o);
+            let defs = crate::rendered::read_syn(&src).map_err(|e| format!("the generated source{} cannot compile: {}", tag, e))?;
+            super::c04::well_formed(&defs).map_err(|e| format!("the generated source{} cannot compile: {}", tag, e))?;
+            if let Some(d) = defs.iter().find(|d| d.name == "Serialize" || d.name == "Deserialize") {
+                return Err(format!("the generated source{} cannot compile: struct `{}` clashes with the serde import of the header", tag, d.name));
+            }
+            let tree = crate::rendered::build_tree(&defs, &o.attribute_prefix, &o.text_identifier).map_err(|e| format!("the generated structs{} do not form a tree: {}", tag, e))?;
+            for (i, d) in docs.iter().enumerate() {
+                let r = if self.deser == Deser::QuickXml { super::c01::admits(d, &tree, "") } else { admits_flat(d, &tree, "") };
+                r.map_err(|e| format!("from_str{} cannot succeed for source document #{}: {}", tag, i + 1, e))?;
+            }
         }
         Ok(true)
     }
@@ -524,7 +538,7 @@ impl Property for ProgProp {
     }
     fn rule(&self) -> String {
         match self.deser {
-            Deser::QuickXml => "tape-decoded data-oriented document sequences (1..4 documents; every occurrence text-bearing xor child-bearing, blanks may sit between children; no two names of a case equal after prefix removal; all name classes incl. keywords, prefixes, xmlns/xml:lang attributes, case variants, String/Option/Vec/Self/Serialize names; CDATA, comments, PIs, DOCTYPE, predefined entities and character references). Each generated program = CLI header + rendering, unchanged, plus a copy with #[serde(deny_unknown_fields)] on every struct; 50-100 programs are compiled by one direct rustc call (edition 2021) against prebuilt serde/quick-xml rlibs (features serialize + overlapped-lists) and run: quick_xml::de::from_str::<first struct> on every source document; the value is printed through an own serde::Serializer and compared with the document (every attribute value, every text content trimmed, children incl. Vec lengths and order, nothing unaccounted). A first stage checks 40 000 (quick) / 1.5 M (thorough) further generated cases without rustc for the necessary conditions of compilation (syn parse, the C04 oracle, no struct named like the serde import) and of deserialization (every source document is admitted by the struct tree, as in C01). Non-trivial = program has two or more structs or an Option/Vec field (and, in the compile stage, a value was compared); distinct by hash of documents and surface tape; distinct_nontrivial counts both stages, `programs` only the compiled ones.".into(),
+            Deser::QuickXml => "tape-decoded data-oriented document sequences (1..4 documents; every occurrence text-bearing xor child-bearing, blanks may sit between children; no two names of a case equal after prefix removal; all name classes incl. keywords, prefixes, xmlns/xml:lang attributes, case variants, String/Option/Vec/Self/Serialize names; CDATA, comments, PIs, DOCTYPE, predefined entities and character references). Each generated program = CLI header + rendering (one case in four with sort-by-name on top of the preset), unchanged, plus a copy with #[serde(deny_unknown_fields)] on every struct; 50-100 programs are compiled by one direct rustc call (edition 2021) against prebuilt serde/quick-xml rlibs (features serialize + overlapped-lists) and run: quick_xml::de::from_str::<first struct> on every source document; the value is printed through an own serde::Serializer and compared with the document (every attribute value, every text content trimmed, children incl. Vec lengths and order, nothing unaccounted). A first stage checks 40 000 (quick) / 1.5 M (thorough) further generated cases without rustc for the necessary conditions of compilation (syn parse, the C04 oracle, no struct named like the serde import) and of deserialization (every source document is admitted by the struct tree, as in C01). Non-trivial = program has two or more structs or an Option/Vec field (and, in the compile stage, a value was compared); distinct by hash of documents and surface tape; distinct_nontrivial counts both stages, `programs` only the compiled ones.".into(),
             Deser::SerdeXmlRs => "as C02 but namespace-free (no ':' in names, no xmlns attributes), attribute names disjoint from element names, repeated children adjacent, child-bearing occurrences without any character data; serde-xml-rs preset, serde_xml_rs::from_str (0.6.0), no deny_unknown_fields variant. The main search excludes by construction the region of the open finding (a name is either a text leaf or structural); one case in twenty generates that region and must show exactly the known signature or nothing. The static first stage and the counting are as in C02.".into(),
         }
     }
